@@ -62,6 +62,7 @@ struct Obs {
 
 void Digest(Obs& o, const R& r, const World& w) {
   o.at = Stamp();
+  VF_R(w.side, "C04,C06");
   o.side = w.side;
   o.tag = CurTag();
   o.state = static_cast<int>(r.State());
@@ -212,12 +213,14 @@ void SharedCase(Ctx& ctx, bool with_ready_touch) {
     // coroutine producers: the body waits for a gate the producer thread opens, then completes the shared state
     auto co_unique = [&w](yaclib::Future<void, MyError> gate) -> yaclib::Future<Tracked, MyError> {
       co_await yaclib::Await(gate);
+      VF_W(w.side, "C04,C06");
       w.side = w.code;
       w.set_call = Stamp();
       co_return Tracked{w.code};
     };
     auto co_shared = [&w](yaclib::Future<void, MyError> gate) -> yaclib::SharedFuture<Tracked, MyError> {
       co_await yaclib::Await(gate);
+      VF_W(w.side, "C04,C06");
       w.side = w.code;
       w.set_call = Stamp();
       co_return Tracked{w.code};
@@ -261,6 +264,7 @@ void SharedCase(Ctx& ctx, bool with_ready_touch) {
         return;
       }
       { auto unused_gate = std::move(gp); }
+      VF_W(w.side, "C04,C06");
       w.side = w.code;
       w.set_call = Stamp();
       switch (w.pk) {
